@@ -453,6 +453,14 @@ func (c *Case) RunProposal(pr base.ProposalSignFact, order []int, sc Sched) (obs
 		entryFact[len(ops)+i] = expelops[i].Fact().Hash().String()
 	}
 	obs.Slots = make([]int, nops)
+	// entries DefaultProposalProcessor.getOperation drops by contract (no result, no slot): not candidates when the
+	// leaves are matched to entries by fact hash (an expel wrongly placed in the proposal can carry the same fact
+	// as an expel of the voteproof: the token of an expel fact is node+start+end)
+	skipped := make([]bool, nops)
+	for i := range ops {
+		_, isexpel := ops[i].Op.Fact().(isaac.SuffrageExpelFact)
+		skipped[i] = isexpel || ops[i].Get == GetNotFound || ops[i].Get == GetProcessed
+	}
 	if fs.opstree != nil {
 		// the tree is the compaction of the per-entry slots: leaf j belongs to the j-th entry that has a slot.
 		// match leaves to entries greedily in order by fact hash (entries without a slot are skipped).
@@ -470,7 +478,7 @@ func (c *Case) RunProposal(pr base.ProposalSignFact, order []int, sc Sched) (obs
 			}
 			obs.OpsLeafs = append(obs.OpsLeafs, on.Key()+"|"+reason)
 			fh := on.Operation().String()
-			for e < nops && entryFact[e] != fh {
+			for e < nops && (entryFact[e] != fh || skipped[e]) {
 				e++
 			}
 			if e >= nops {
